@@ -376,7 +376,7 @@ func propC18(c tableCase, o *hx.Obs) *hx.Failure {
 				return hx.Failf("C18/deprecated/"+l.name, "%s(%s,%s)=%s want %s", l.name, S.String(), bbStr(occ), bbStr(uint64(l.got)), bbStr(w))
 			}
 		}
-		o.Evals(5)
+		o.Evals(4)
 		if occ&(gSlide(sq, gRookDirs, 0)|gSlide(sq, gBishopDirs, 0)) != 0 {
 			o.NT("")
 		}
